@@ -6,6 +6,9 @@
 //!   (d) random construction programs (`shuffled_build` below; `suite_fanyorder.rs`: any
 //!       interleaving of creation, attachment, attribute / namespace insertion, text in pieces),
 //!       the latter also run on the ordered-tree specification (`forest prog spec`).
+//!   (e) random EXTENDED construction programs (`suite_fanyorder2.rs`: the same document built with
+//!       detours — helper wrappers, placeholders, late values, detach and re-attach, wrap, clone of a
+//!       template), also run as whole programs (`forest prog2 spec` / `forest prog2 impl`).
 //! Routes (a) and (c) are also run by the model (`forest fixed <route> <document>`), the whole
 //! forest is dumped after each and compared (`forest dump`).
 //! Oracle (implementation only): the routes are pairwise `deep_equal`, read back to the same raw
@@ -498,6 +501,23 @@ fn one_case(rng: &mut Rng, sink: &mut Sink, profile: Profile, doc: Option<GTree>
                 }
                 None => {
                     fail(sink, &s, "C20:anyorder-step-refused", &format!("a step of a random construction program of {} was refused", t.wire()));
+                    return;
+                }
+            }
+        }
+    }
+    // extended construction programs (suite_fanyorder2.rs): the same document built with detours —
+    // helper wrappers, placeholders, late values, detach and re-attach, wrap, clone of a template
+    if !panicked && (!s.xot_consolidation() || no_adjacent_text(&t)) {
+        for _ in 0..2 {
+            match crate::suite_fanyorder2::extended_build(&mut s, sink, rng, &t) {
+                Some(root) => {
+                    s.exec(sink, "dump");
+                    s.exec(sink, "inv");
+                    built.push(Built { route: "program", node: s.nodes[root] });
+                }
+                None => {
+                    fail(sink, &s, "C20:program-step-refused", &format!("a step of a random extended construction program of {} was refused", t.wire()));
                     return;
                 }
             }
